@@ -21,7 +21,8 @@ from dep_logic.markers import AnyMarker, EmptyMarker  # noqa: E402
 
 THEOREMS_BY_PROP = {
     "C11": ["DepLogic.C11.coherent_plain", "DepLogic.C11.coherent_clean", "DepLogic.C11.coherent_reversed",
-            "DepLogic.C11.lexOne_of_clean",
+            "DepLogic.C11.lexOne_of_clean", "DepLogic.M.fromSpecOk_of_lex", "DepLogic.M.pyMergeOk_of_fromSpec",
+            "DepLogic.M.normGood_of_lex", "DepLogic.pyNorm_sem", "DepLogic.pad_one",
             "DepLogic.C04.leaf_exact"],
     "C13": ["DepLogic.C13.spec_refl", "DepLogic.C13.spec_symm", "DepLogic.C13.spec_trans", "DepLogic.C13.spec_hash",
             "DepLogic.C13.spec_interchangeable", "DepLogic.C13.eq_of_beq", "DepLogic.C13.marker_equivalence",
